@@ -27,6 +27,11 @@ pub enum Act {
     /// replay a SYN captured during warm-up: (index into the capture list, destination)
     Replay(u8, u8),
     WriteReady(u8, bool),
+    /// node sets key "t" / deletes it / runs its key GC (used by the roots that make a live
+    /// member's copy go through a reset, which can lower its max version)
+    SetT(u8),
+    DelT(u8),
+    GcKeys(u8),
 }
 
 impl Act {
@@ -38,6 +43,9 @@ impl Act {
             Act::Eval(a) => json!({"op":"eval","node":NAMES[*a as usize]}),
             Act::Replay(i, to) => json!({"op":"replay-captured-syn","capture":i,"to":NAMES[*to as usize]}),
             Act::WriteReady(n, v) => json!({"op":"write","node":NAMES[*n as usize],"key":"READY","value":v}),
+            Act::SetT(n) => json!({"op":"set-t","node":NAMES[*n as usize]}),
+            Act::DelT(n) => json!({"op":"delete-t","node":NAMES[*n as usize]}),
+            Act::GcKeys(n) => json!({"op":"gc-keys","node":NAMES[*n as usize]}),
         }
     }
     pub fn from_json(v: &Value) -> Option<Act> {
@@ -54,6 +62,9 @@ impl Act {
             "eval" => Act::Eval(n("node")?),
             "replay-captured-syn" => Act::Replay(v["capture"].as_u64()? as u8, n("to")?),
             "write" => Act::WriteReady(n("node")?, v["value"].as_bool()?),
+            "set-t" => Act::SetT(n("node")?),
+            "delete-t" => Act::DelT(n("node")?),
+            "gc-keys" => Act::GcKeys(n("node")?),
             _ => return None,
         })
     }
@@ -64,7 +75,7 @@ impl Act {
             Act::Hs(a, b) => Some(vec![*a, *b]),
             Act::Eval(a) => Some(vec![*a]),
             Act::Replay(_, to) => Some(vec![*to]),
-            Act::WriteReady(n, _) => Some(vec![*n]),
+            Act::WriteReady(n, _) | Act::SetT(n) | Act::DelT(n) | Act::GcKeys(n) => Some(vec![*n]),
         }
     }
 }
@@ -80,12 +91,18 @@ pub enum Root {
     /// Crash, then: tick 5s, A and B evaluate, tick 11s, tick 11s, A evaluates (A removed X; B has
     /// not evaluated since and still advertises X)
     CrashRemovedAtA,
+    /// Crash; A and B keep gossiping (so they stay live for each other); A has removed X, B has never
+    /// evaluated and still advertises X (with data A no longer has)
+    CrashRemovedAtAKeepingB,
     /// Partition, and A has removed X (and B) while X kept heartbeating with B
     PartitionRemovedAtA,
     /// X stays up but only talks to A (B only talks to A as well): A is the hub
     Star,
     /// Star, then: B->A (B tells A all it knows), tick 5s, B->A twice, A evaluates: at A, B is live and X is dead
     StarBLiveXDead,
+    /// Star, then X writes and deletes a key, collects the tombstone after the key grace period and
+    /// gossips with A again: A's copy of the live member X was reset and its max version went DOWN
+    StarXResetAtA,
 }
 
 impl Root {
@@ -93,8 +110,10 @@ impl Root {
         match self {
             Root::Crash | Root::Partition | Root::Star => vec![],
             Root::StarBLiveXDead => vec![Act::Hs(1, 0), Act::Tick5, Act::Hs(1, 0), Act::Hs(1, 0), Act::Eval(0)],
+            Root::StarXResetAtA => vec![Act::SetT(2), Act::Hs(2, 0), Act::Eval(0), Act::DelT(2), Act::Tick11, Act::GcKeys(2), Act::Hs(2, 0)],
             Root::CrashQuarantined => vec![Act::Tick5, Act::Eval(0), Act::Eval(1), Act::Tick11],
             Root::CrashRemovedAtA => vec![Act::Tick5, Act::Eval(0), Act::Eval(1), Act::Tick11, Act::Tick11, Act::Eval(0)],
+            Root::CrashRemovedAtAKeepingB => vec![Act::Hs(1, 0), Act::Tick5, Act::Hs(1, 0), Act::Hs(1, 0), Act::Eval(0), Act::Tick11, Act::Hs(1, 0), Act::Hs(1, 0), Act::Tick11, Act::Hs(1, 0), Act::Hs(1, 0), Act::Eval(0)],
             Root::PartitionRemovedAtA => vec![Act::Tick5, Act::Hs(2, 1), Act::Eval(0), Act::Eval(1), Act::Tick11, Act::Hs(2, 1), Act::Tick11, Act::Hs(2, 1), Act::Eval(0)],
         }
     }
@@ -104,8 +123,10 @@ impl Root {
             "CrashQuarantined" => Root::CrashQuarantined,
             "CrashRemovedAtA" => Root::CrashRemovedAtA,
             "PartitionRemovedAtA" => Root::PartitionRemovedAtA,
+            "CrashRemovedAtAKeepingB" => Root::CrashRemovedAtAKeepingB,
             "Star" => Root::Star,
             "StarBLiveXDead" => Root::StarBLiveXDead,
+            "StarXResetAtA" => Root::StarXResetAtA,
             _ => Root::Crash,
         }
     }
@@ -200,7 +221,12 @@ impl MWorld {
         let incoming = real::meaning_of_real(&msg);
         let before = self.members(to);
         let node = &mut self.nodes[to];
-        let reply = guarded(|| node.cc.verif_process_message(msg)).map_err(|p| ("C12", format!("node {} panicked: {p}", NAMES[to]), format!("panic:{}", short_loc(&p))))?;
+        // equal-staleness groups are put in id order (this engine does not enumerate their orders; with
+        // small values every stale member fits in the delta whatever the order)
+        chitchat::verif::arm_choices(vec![]);
+        let reply = guarded(|| node.cc.verif_process_message(msg));
+        chitchat::verif::disarm_choices();
+        let reply = reply.map_err(|p| ("C12", format!("node {} panicked: {p}", NAMES[to]), format!("panic:{}", short_loc(&p))))?;
         let after = self.members(to);
         // re-creation guard
         for (m, _) in &after {
@@ -490,6 +516,9 @@ impl MWorld {
             Act::WriteReady(n, v) => {
                 self.nodes[*n as usize].cc.self_node_state().set("READY", if *v { "true" } else { "false" });
             }
+            Act::SetT(n) => self.nodes[*n as usize].cc.self_node_state().set("t", "tmp"),
+            Act::DelT(n) => self.nodes[*n as usize].cc.self_node_state().delete("t"),
+            Act::GcKeys(n) => self.nodes[*n as usize].cc.verif_gc_keys_marked_for_deletion(),
         }
         Ok(())
     }
@@ -501,7 +530,7 @@ pub fn alphabet(root: Root) -> Vec<Act> {
         v.push(Act::Hs(2, 1));
         v.push(Act::Hs(1, 2));
     }
-    if root == Root::Star || root == Root::StarBLiveXDead {
+    if root == Root::Star || root == Root::StarBLiveXDead || root == Root::StarXResetAtA {
         v.push(Act::Hs(2, 0));
         v.push(Act::Hs(0, 2));
     }
@@ -527,7 +556,7 @@ pub fn run_sequence(root: Root, predicate: bool, props: &[&'static str], seq: &[
 pub fn explore(root: Root, predicate: bool, props: &[&'static str], depth: usize, deadline: Instant) -> Part {
     let mut part = Part::new(&format!("membership/{:?}{}(depth<={depth})", root, if predicate { "+predicate" } else { "" }));
     let alpha = alphabet(root);
-    part.rule = format!("three real nodes A, B, X (phi 2, intervals 1s/2s, dead-node grace 20s); deterministic warm-up of 4 gossip rounds makes everyone live everywhere, X's last write reaches B only; then {}; every sequence of length <= {depth} over {{tick 5s, tick 11s, handshake A->B, B->A, evaluate A, evaluate B, replay one of three SYNs captured during warm-up to A, B writes READY=false/true{}}} is executed from the root with the oracles on every step (adjacent actions on disjoint nodes are explored in one order only); non-trivial = sequences in which a member was quarantined, removed or re-advertised", match root { Root::Crash => "X crashes", Root::Partition => "X stays up but only talks to B", Root::CrashQuarantined => "X crashes and (tick 5s, A and B evaluate, tick 11s) X is quarantined at both survivors", Root::CrashRemovedAtA => "X crashes and (tick 5s, A and B evaluate, tick 11s, tick 11s, A evaluates) A has removed X while B still advertises it", Root::PartitionRemovedAtA => "X stays up but only talks to B, and after 27s without any contact A has removed X (and B) while X kept heartbeating with B", Root::Star => "X stays up but only talks to A", Root::StarBLiveXDead => "X stays up but only talks to A, and (B->A, tick 5s, B->A twice, A evaluates) A holds B live and X dead" }, if root == Root::Partition || root == Root::PartitionRemovedAtA { ", handshake X->B, B->X" } else if root == Root::Star || root == Root::StarBLiveXDead { ", handshake X->A, A->X" } else { "" });
+    part.rule = format!("three real nodes A, B, X (phi 2, intervals 1s/2s, dead-node grace 20s); deterministic warm-up of 4 gossip rounds makes everyone live everywhere, X's last write reaches B only; then {}; every sequence of length <= {depth} over {{tick 5s, tick 11s, handshake A->B, B->A, evaluate A, evaluate B, replay one of three SYNs captured during warm-up to A, B writes READY=false/true{}}} is executed from the root with the oracles on every step (adjacent actions on disjoint nodes are explored in one order only); non-trivial = sequences in which a member was quarantined, removed or re-advertised", match root { Root::Crash => "X crashes", Root::Partition => "X stays up but only talks to B", Root::CrashQuarantined => "X crashes and (tick 5s, A and B evaluate, tick 11s) X is quarantined at both survivors", Root::CrashRemovedAtA => "X crashes and (tick 5s, A and B evaluate, tick 11s, tick 11s, A evaluates) A has removed X while B still advertises it", Root::CrashRemovedAtAKeepingB => "X crashes; A and B keep gossiping; after 27s A has removed X while B, which never evaluated, still advertises it", Root::PartitionRemovedAtA => "X stays up but only talks to B, and after 27s without any contact A has removed X (and B) while X kept heartbeating with B", Root::Star => "X stays up but only talks to A", Root::StarBLiveXDead => "X stays up but only talks to A, and (B->A, tick 5s, B->A twice, A evaluates) A holds B live and X dead", Root::StarXResetAtA => "X stays up but only talks to A; X set and deleted a key, collected the tombstone 11s later and gossiped with A, whose copy of X was reset to a LOWER max version" }, if root == Root::Partition || root == Root::PartitionRemovedAtA { ", handshake X->B, B->X" } else if root == Root::Star || root == Root::StarBLiveXDead || root == Root::StarXResetAtA { ", handshake X->A, A->X" } else { "" });
     part.bounds = json!({"alphabet": alpha.iter().map(|a| a.json()).collect::<Vec<_>>(), "depth": depth, "grace_ms": GRACE_MS});
     let capped = std::sync::atomic::AtomicBool::new(false);
     let prefixes: Vec<Vec<Act>> = alpha.iter().flat_map(|a| alpha.iter().map(move |b| vec![*a, *b])).collect();
@@ -715,14 +744,14 @@ pub fn run(property: &'static str, tier: Tier, started: Instant) -> Vec<Part> {
     let budget = tier.pick(55u64, 3500u64);
     let mut parts = vec![];
     let mut plan: Vec<(Root, bool, usize)> = match property {
-        "C13" => vec![(Root::Crash, false, depth), (Root::Crash, true, depth), (Root::Partition, true, depth), (Root::Partition, false, depth), (Root::CrashRemovedAtA, true, depth2), (Root::Star, false, depth), (Root::StarBLiveXDead, false, depth2), (Root::StarBLiveXDead, true, depth2)],
-        _ => vec![(Root::Crash, false, depth), (Root::Partition, false, depth), (Root::CrashQuarantined, false, depth2), (Root::CrashRemovedAtA, false, depth2), (Root::PartitionRemovedAtA, false, depth2 - 1)],
+        "C13" => vec![(Root::Crash, false, depth), (Root::Crash, true, depth), (Root::Partition, true, depth), (Root::Partition, false, depth), (Root::CrashRemovedAtA, true, depth2), (Root::Star, false, depth), (Root::StarBLiveXDead, false, depth2), (Root::StarBLiveXDead, true, depth2), (Root::StarXResetAtA, false, depth2)],
+        _ => vec![(Root::Crash, false, depth), (Root::Partition, false, depth), (Root::CrashQuarantined, false, depth2), (Root::CrashRemovedAtA, false, depth2), (Root::CrashRemovedAtAKeepingB, false, depth2 - 1), (Root::PartitionRemovedAtA, false, depth2 - 1)],
     };
     if tier == Tier::Quick && property == "C13" {
-        plan = vec![(Root::Crash, false, depth), (Root::Crash, true, depth), (Root::Partition, true, depth), (Root::CrashRemovedAtA, true, depth2 - 1), (Root::StarBLiveXDead, false, depth2), (Root::StarBLiveXDead, true, depth2 - 1)];
+        plan = vec![(Root::Crash, false, depth), (Root::Crash, true, depth), (Root::Partition, true, depth), (Root::CrashRemovedAtA, true, depth2 - 1), (Root::StarBLiveXDead, false, depth2), (Root::StarBLiveXDead, true, depth2 - 1), (Root::StarXResetAtA, false, depth2 - 1)];
     }
     if tier == Tier::Quick && property == "C01" {
-        plan = vec![(Root::Crash, false, 4), (Root::CrashQuarantined, false, 4), (Root::PartitionRemovedAtA, false, 3)];
+        plan = vec![(Root::Crash, false, 4), (Root::CrashQuarantined, false, 4), (Root::CrashRemovedAtAKeepingB, false, 3), (Root::PartitionRemovedAtA, false, 3)];
     }
     let n = plan.len() as u64;
     for (i, (root, pred, d)) in plan.into_iter().enumerate() {
